@@ -311,9 +311,58 @@ def eventlog_check(prop, tier, replay):
                    "harness/src/eventlog_world.rs projection; RewindPatch/RewindRollback mirror the two-line "
                    "rollback idiom of server_helpers::rollback_rewind at log level (the real function is "
                    "exercised by the Sync world)"]
+    if prop == "C07":
+        sm_cover, sm_viol = srvmerge_part(wd, scratch, tier)
+        cover["server_merge"] = sm_cover
+        cover["states"] += sm_cover["states"]
+        cover["transitions"] += sm_cover["transitions"]
+        cover["traces_validated_against_impl"] += sm_cover["paths"]
+        cover["rule"] += (" Server side: ServerMerge.tla (PatchRequest with and without rewind for the identity, "
+                          "account, device, files and folder logs; views = prefix / whole / empty / fork; init-diff "
+                          "rule of the file log) checked by TLC (AppliedIffAgreedBase, RefusedUnchanged, Isolation); a "
+                          "transition tour per log type is executed through server_helpers::event_patch on real "
+                          "ServerStorage (file-system and sqlite): answer class = model's, all five logs = model's, "
+                          "refusal changes nothing.")
+        viol = viol + sm_viol
     vlib.write_evidence(prop, tier, "model_checking", cover, assumptions, time.time() - t0, len(viol))
     known_hits = [dict(known[k["key"]], **k) for k in summ["known"] if k["key"] in known]
     return vlib.finish(prop, viol, known_hits)
+
+
+def srvmerge_part(wd, scratch, tier):
+    """C07 on the server: ServerMerge.tla tour through server_helpers::event_patch."""
+    instances = [(["files"], 3), (["folder"], 3), (["account"], 2), (["device"], 2), (["identity"], 2),
+                 (["files", "folder"], 2)]
+    if tier != "quick":
+        instances += [(["files", "account", "device"], 2), (["identity", "folder"], 3)]
+    # the init-diff rule is what distinguishes the file log: the model must notice its loss
+    cfg = vlib.render_cfg("MC_ServerMerge.cfg", {"LogTypes": tla_set(["files"]), "MaxLen": "3",
+                                                 "Deviations": '{"InitDiffEither"}', "EmitEdges": "FALSE"},
+                          os.path.join(wd, "sm_dev.cfg"))
+    rd = vlib.run_tlc("MC_ServerMerge", cfg, "C07smd", timeout_s=600, coverage=False)
+    if "AppliedIffAgreedBase" not in rd.violated:
+        raise ToolError("ServerMerge.tla does not notice deviation InitDiffEither")
+    states = trans = npaths = edges = 0
+    jobs = []
+    for n, (types, maxlen) in enumerate(instances):
+        r, g, paths = srvmerge_paths(wd, str(n), types, maxlen, tier)
+        states += r.distinct
+        trans += r.generated
+        edges += len(g.edges)
+        npaths += len(paths)
+        sub = os.path.join(wd, "sm_%d" % n)
+        os.makedirs(sub, exist_ok=True)
+        files = write_paths(g, paths, sub, 2)
+        for f in files:
+            for backend in ("fs", "db"):
+                jobs.append((f, backend, os.path.join(scratch, "sm_%d_%s_%s" % (n, backend, os.path.basename(f)[6:8]))))
+    vlib.cargo_build()
+    summ = vlib.run_harness_parallel(
+        lambda j: [vlib.harness_bin("replay"), "srvmerge", j[0], j[2], j[1]], jobs, jobs=12, timeout_s=3000)
+    cover = {"states": states, "transitions": trans, "graph_edges": edges, "paths": npaths * 2,
+             "steps": summ["steps"], "distinct_nontrivial": len(set(summ["nontrivial_keys"])),
+             "instances": [{"log_types": t, "max_len": m} for t, m in instances], "backends": ["fs", "db"]}
+    return cover, summ["violations"]
 
 
 @register("C06")
@@ -1733,3 +1782,22 @@ def check_c14(tier, replay):
     vlib.write_evidence(prop, tier, "model_checking", cover, assumptions, time.time() - t0, len(summ["violations"]))
     known_hits = [dict(k2, **known[k2["key"]]) for k2 in summ["known"] if k2["key"] in known]
     return vlib.finish(prop, summ["violations"], known_hits)
+
+
+def srvmerge_paths(wd, name, logtypes, maxlen, tier):
+    """Model check ServerMerge.tla for the given log types; return (TlcResult, tour paths)."""
+    consts = {"LogTypes": tla_set(logtypes), "MaxLen": str(maxlen), "Deviations": "{}", "EmitEdges": "FALSE"}
+    cfg = vlib.render_cfg("MC_ServerMerge.cfg", consts, os.path.join(wd, "sm_prop_%s.cfg" % name))
+    r = vlib.run_tlc("MC_ServerMerge", cfg, "C07sm" + name, timeout_s=900)
+    if r.violated:
+        raise ToolError("ServerMerge spec violates %s" % r.violated)
+    cfg = vlib.render_cfg("MC_ServerMerge.cfg", dict(consts, EmitEdges="TRUE"), os.path.join(wd, "sm_emit_%s.cfg" % name))
+    strip_properties(cfg)
+    g = vlib.Graph()
+    vlib.run_tlc("MC_ServerMerge", cfg, "C07se" + name, timeout_s=900, coverage=False, workers=1,
+                 tag_sink=lambda tag, obj: g.add(obj) if tag == "EDGE" else None)
+    init = {"srv": {t: [] for t in logtypes}}
+    paths, covered, wanted = vlib.transition_tour(g, init, max_len=40)
+    if covered != wanted:
+        raise ToolError("ServerMerge tour covers %d of %d edges" % (covered, wanted))
+    return r, g, paths
